@@ -74,9 +74,12 @@ structure Tab where
 /-- NumPy index normalisation for an axis of length `n` (valid for `-n ≤ i < n`) -/
 def pyIdx (n : Nat) (i : Int) : Int := if i < 0 then i + n else i
 
-/-- `pippi_s_locs`: ports whose (P)PI slot has memory, then ALL state-element rows (sim.py:326-330) -/
+/-- `pippi_s_locs`: ports whose (P)PI slot has memory, then the state-element rows whose (P)PI slot has memory
+    (sim.py, end of `SimOps.__init__`; before the repair "state elements without connected outputs are not assigned in
+    s_to_c" ALL state-element rows were listed and `s_to_c` stored through `c_locs = -1`) -/
 def cpuAssignRows (tb : Tab) : List Nat :=
-  ((List.range tb.nIo).filter fun y => decide (0 ≤ tb.ppiLoc y)) ++ List.range' tb.nIo (tb.sLen - tb.nIo)
+  ((List.range tb.nIo).filter fun y => decide (0 ≤ tb.ppiLoc y)) ++
+  ((List.range' tb.nIo (tb.sLen - tb.nIo)).filter fun y => decide (0 ≤ tb.ppiLoc y))
 
 /-- one of the three statements `self.c[self.pippi_c_locs + k] = …` on one lane (rows assigned in index order) -/
 def cpuPass (tb : Tab) (s : Nat → SRow) (k : Nat) (c : Col) : Col :=
